@@ -126,6 +126,7 @@ def rule_loop_variants(ctx: Ctx, prog: Program) -> None:
         table = json.load(f)
     proved_before = {e["key"]: e for e in table["proved"]}
     undecided = {e["key"]: e for e in table["undecided"]}
+    refuted = {e["key"]: e for e in table.get("refuted", [])}
     n = 0
     for fn, k, node in while_loops(prog):
         n += 1
@@ -138,6 +139,11 @@ def rule_loop_variants(ctx: Ctx, prog: Program) -> None:
             ctx.violation("R-LOOP-VARIANT", fn.path, fn.name, f"while{k}:{ast.unparse(node.test)[:50]}", f"{fn.path}:{node.lineno}",
                           f"the loop `while {ast.unparse(node.test)[:60]}` of {fn.name} had a termination argument on the pinned tree "
                           f"({proved_before[key].get('argument', '')}) and has none now ({why}): a propagator may spin forever")
+        elif key in refuted:
+            # no termination argument can be derived AND triage produced an input on which the loop does not terminate
+            ctx.violation("R-LOOP-VARIANT", fn.path, fn.name, f"while{k}:{ast.unparse(node.test)[:50]}", f"{fn.path}:{node.lineno}",
+                          f"the loop `while {ast.unparse(node.test)[:60]}` of {fn.name} has no derivable termination argument ({why}) and "
+                          f"its implicit assumption is known to fail: {refuted[key].get('counterexample', '')}")
         elif key in undecided:
             ctx.undecided_site("R-LOOP-VARIANT", key, undecided[key].get("reason", why))
         else:
